@@ -69,6 +69,15 @@ Theorem C26_serve : forall unk reg p,
   serve unk reg p = if wire_ok p then dispatch unk reg p else Rejected.
 Proof. exact serve_spec. Qed.
 Print Assumptions C26_serve.
+(* the same server driven through Server.ServeHTTP: net/http additionally refuses a path that is
+   empty or has no leading '/'; every other path is dispatched exactly as above *)
+Theorem C26_serve_http_no_leading_slash : forall unk reg p,
+  starts_slash p = false -> serve_t true unk reg p = Rejected.
+Proof. exact serve_t_http_no_slash. Qed.
+Print Assumptions C26_serve_http_no_leading_slash.
+Theorem C26_serve_native : forall unk reg p, serve_t false unk reg p = serve unk reg p.
+Proof. exact serve_t_native. Qed.
+Print Assumptions C26_serve_native.
 
 (* Statement deviation (finding F-C26-slash-in-method-name, clause 4): the split is at the
    LAST '/', so a registered method whose name contains '/' is unreachable by ANY path ... *)
